@@ -34,7 +34,7 @@ EXPECTED_TAGS = [
     "{{ assoc_table.left_foreign_key }}", "{{ assoc_table.left_primary_key }}", "{{ assoc_table.right_foreign_key }}",
     "{{ assoc_table.right_primary_key }}", "{% endfor %}",
     "{% for table in ormatic.wrapped_tables.values() %}", "{{ table.tablename }}", "{{ table.base_class_name }}",
-    "{{ table.wrapped_clazz.clazz.__module__ }}", "{{ table.wrapped_clazz.clazz.__name__ }}", "{{ table.tablename }}",
+    "{{ table.wrapped_clazz.clazz.__module__ }}", "{{ table.wrapped_clazz.clazz.__qualname__ }}", "{{ table.tablename }}",
     "{{ table.primary_key }}",
     "{% for column in table.builtin_columns %}", "{{ column }}", "{% endfor %}",
     "{% for column in table.custom_columns %}", "{{ column }}", "{% endfor %}",
@@ -46,7 +46,7 @@ EXPECTED_TAGS = [
 EXPECTED_TEMPLATE_LINES = [
     "Column('{{ assoc_table.left_foreign_key }}', ForeignKey('{{ assoc_table.left_primary_key }}')),",
     "Column('{{ assoc_table.right_foreign_key }}', ForeignKey('{{ assoc_table.right_primary_key }}')),",
-    "class {{ table.tablename }}({{ table.base_class_name }}, DataAccessObject[{{ table.wrapped_clazz.clazz.__module__ }}.{{ table.wrapped_clazz.clazz.__name__ }}]):",
+    "class {{ table.tablename }}({{ table.base_class_name }}, DataAccessObject[{{ table.wrapped_clazz.clazz.__module__ }}.{{ table.wrapped_clazz.clazz.__qualname__ }}]):",
     "__tablename__ = '{{ table.tablename }}'",
     "{{ assoc_table.name }} = Table(",
     "'{{ assoc_table.name }}',",
@@ -336,6 +336,32 @@ def translate(repo: str) -> str:
             name_def(o2m, "left_fk_name", "o2m_left_fk_name", ["self_tablename"]),
             name_def(o2m, "right_fk_name", "o2m_right_fk_name", ["target_tablename"]),
             name_def(o2m, "rel_name", "o2m_rel_name", ["field_name"]), ""]
+    # the association columns of a collection of the own class: `if left_fk_name == right_fk_name:` renames both and
+    # tells the relationship which side is which (c757abc)
+    clash_ifs = [x for x in o2m.body if isinstance(x, ast.If)]
+    if len(clash_ifs) != 1 or clash_ifs[0].orelse or ast.unparse(clash_ifs[0].test) != "left_fk_name == right_fk_name":
+        raise Refuse(o2m, "expected exactly one `if left_fk_name == right_fk_name:` in create_one_to_many_relationship", wt_fn)
+    if ast.unparse(assigned(o2m, "joins", wt_fn)) != "''":
+        raise Refuse(o2m, "joins is not initialised with the empty string", wt_fn)
+    cb = strip_logging(clash_ifs[0].body)
+    targets = [ast.unparse(x.targets[0]) if isinstance(x, ast.Assign) and len(x.targets) == 1 else "?" for x in cb]
+    if targets != ["left_fk_name", "right_fk_name", "joins"]:
+        raise Refuse(clash_ifs[0], f"body of the name-clash branch assigns {targets}", wt_fn)
+    out += ["Definition o2m_fk_names_clash (left_fk_name right_fk_name : string) : bool := String.eqb left_fk_name right_fk_name."]
+    cx = Ctx(wt_fn, {}, {"left_fk_name": "left_fk_name"})
+    out += [f"Definition o2m_left_fk_name_on_clash (left_fk_name : string) : string := {sexpr(cb[0].value, cx)}."]
+    cx = Ctx(wt_fn, {}, {"right_fk_name": "right_fk_name"})
+    out += [f"Definition o2m_right_fk_name_on_clash (right_fk_name : string) : string := {sexpr(cb[1].value, cx)}."]
+    cx = Ctx(wt_fn, {"self.full_primary_key_name": "self_full_primary_key_name",
+                     "target_wrapped_table.full_primary_key_name": "target_full_primary_key_name"},
+             {"association_table_name": "association_table_name", "left_fk_name": "left_fk_name", "right_fk_name": "right_fk_name"})
+    jexpr = cb[2].value
+    out += ["Definition o2m_joins_on_clash (self_full_primary_key_name association_table_name left_fk_name "
+            f"target_full_primary_key_name right_fk_name : string) : string := {sexpr(jexpr, cx)}.", ""]
+    rc = ast.unparse(assigned(o2m, "rel_constructor", wt_fn))
+    if "secondary='{association_table_name}'{joins}, cascade=" not in rc:
+        raise Refuse(o2m, "joins is not placed after secondary= in the relationship constructor", wt_fn)
+
     at = assigned(o2m, "association_table", wt_fn)
     want = {"name": "association_table_name", "left_table_name": "self.tablename", "left_foreign_key": "left_fk_name",
             "left_primary_key": "self.full_primary_key_name", "right_table_name": "target_wrapped_table.tablename",
